@@ -3,11 +3,13 @@ mod common;
 mod conc;
 mod conc_pending;
 mod core;
+mod fmtcheck;
 mod corpus;
 mod backend;
 mod blocks;
 mod coverage;
 mod front;
+mod frontend;
 mod graph;
 mod host;
 mod lexer;
@@ -74,6 +76,9 @@ fn main() {
         | "export-ir" => backend::export_ir(&args[2], &args[3], &args[4], args[5].parse().unwrap()),
         | "corpus-lower" => backend::corpus_lower(&args[2], &args[3]),
         | "replay-monadic" => monadic::replay_monadic(&args[2], &args[3]),
+        | "fuzz-frontend" => frontend::fuzz_frontend(&args[2], &args[3], &args[4], args[5].parse().unwrap(), args[6].parse().unwrap()),
+        | "vocab-classes" => frontend::print_vocab(),
+        | "fmt-dump" => fmtcheck::fmt_dump(&args[2]),
         | "corpus-run" => {
             // zyconf corpus-run OUT MUTANTS_PER_FILE MAX_STEPS
             corpus::corpus_run(&args[2], args[3].parse().unwrap(), args[4].parse().unwrap());
